@@ -307,16 +307,17 @@ func evalCond(cond ssa.Value, f *factSet) int {
 }
 
 type ipSearch struct {
-	p       *Prog
-	target  ipred
-	avoid   ipred
-	edgeOK  func(from *ssa.BasicBlock, succIdx int) bool
-	up      bool          // continue in the callers after the start function returns
-	flat    bool          // do not descend into callees (plain intraprocedural search)
-	stop    *ssa.Function // with up: this function's returns end the activity
-	seen    map[string]bool
-	found   ssa.Instruction
-	visited int
+	p        *Prog
+	target   ipred
+	avoid    ipred
+	edgeOK   func(from *ssa.BasicBlock, succIdx int) bool
+	up       bool          // continue in the callers after the start function returns
+	flat     bool          // do not descend into callees (plain intraprocedural search)
+	stop     *ssa.Function // with up: this function's returns end the activity
+	seen     map[string]bool
+	factSeen map[string][]*factSet // per program point: the fact sets it was explored under
+	found    ssa.Instruction
+	visited  int
 }
 
 func stackKey(stack []*ssa.Call) string {
@@ -456,11 +457,13 @@ func (s *ipSearch) scanF(b *ssa.BasicBlock, from int, stack []*ssa.Call, facts *
 			if g := s.p.syncCallee(in); g != nil && g != b.Parent() && !inStack(stack, g) {
 				ns := append(append([]*ssa.Call{}, stack...), in.(*ssa.Call))
 				key := fmt.Sprintf("%p|%s", g.Blocks[0], stackKey(ns))
-				if s.seen[key] {
-					// this callee was already explored in this context; its continuation too
+				wf, skip := s.memo(key, facts)
+				if skip {
+					// this callee was already explored in this context under facts that allow at least
+					// the paths allowed now; its continuation too
 					return false
 				}
-				s.seen[key] = true
+				facts = wf
 				// parameters bound to constant arguments are known inside the callee
 				nf := facts
 				args := in.(*ssa.Call).Common().Args
@@ -486,6 +489,57 @@ func (s *ipSearch) scanF(b *ssa.BasicBlock, from int, stack []*ssa.Call, facts *
 	}
 	for k := range b.Succs {
 		if s.follow(b, k, stack, facts) {
+			return true
+		}
+	}
+	return false
+}
+
+// subsumed: the program point `key` was already explored under a fact set that is a subset of
+// `facts` (fewer facts prune fewer paths, so that exploration covered everything reachable now);
+// otherwise records `facts` as explored.
+func (s *ipSearch) subsumed(key string, facts *factSet) bool {
+	_, skip := s.memo(key, facts)
+	return skip
+}
+
+// memo: like subsumed, with widening: once a program point has been explored under several
+// incomparable fact sets, the next visit drops all facts (every path is allowed again, as in a
+// path-insensitive search), which subsumes all later visits. Returns the facts to continue with.
+func (s *ipSearch) memo(key string, facts *factSet) (*factSet, bool) {
+	if s.subsumedBy(key, facts) {
+		return facts, true
+	}
+	if len(s.factSeen[key]) >= 6 && facts != nil {
+		if s.subsumedBy(key, nil) {
+			return nil, true
+		}
+		s.factSeen[key] = append(s.factSeen[key], nil)
+		s.seen[key] = true
+		return nil, false
+	}
+	s.factSeen[key] = append(s.factSeen[key], facts)
+	s.seen[key] = true
+	return facts, false
+}
+
+func (s *ipSearch) subsumedBy(key string, facts *factSet) bool {
+	for _, prev := range s.factSeen[key] {
+		sub := true
+		for x := prev; x != nil; x = x.next {
+			if x.kind == 5 {
+				if facts.aliasOf(x.v) != x.alias {
+					sub = false
+					break
+				}
+				continue
+			}
+			if facts.get(x.v) != x.kind {
+				sub = false
+				break
+			}
+		}
+		if sub {
 			return true
 		}
 	}
@@ -613,11 +667,14 @@ func (s *ipSearch) follow(b *ssa.BasicBlock, k int, stack []*ssa.Call, facts *fa
 			break
 		}
 	}
-	key := fmt.Sprintf("%p|%s|%s", succ, stackKey(stack), factsKey(facts))
-	if s.seen[key] {
+	key := fmt.Sprintf("%p|%s", succ, stackKey(stack))
+	if s.seen[key] && s.factSeen[key] == nil {
+		return false // pre-seeded start block
+	}
+	facts, skip := s.memo(key, facts)
+	if skip {
 		return false
 	}
-	s.seen[key] = true
 	return s.scanF(succ, 0, stack, facts)
 }
 
@@ -639,7 +696,7 @@ func isFreshErrorValue(v ssa.Value) bool {
 }
 
 func newIPSearch(target, avoid ipred) *ipSearch {
-	return &ipSearch{p: theProg, target: target, avoid: avoid, seen: map[string]bool{}}
+	return &ipSearch{p: theProg, target: target, avoid: avoid, seen: map[string]bool{}, factSeen: map[string][]*factSet{}}
 }
 
 // mustPrecedeIP: on every path of the enclosing activity that reaches b, an
